@@ -64,7 +64,7 @@ def _soup_chunk(args):
 
     def boom(*a):
         raise TimeoutError("hang")
-    signal.signal(signal.SIGALRM, boom)
+    signal.signal(signal.SIGPROF, boom)      # CPU-time watchdog (independent of the load of the machine)
     for i in range(n):
         k = r.random()
         if k < 0.5:
@@ -81,7 +81,7 @@ def _soup_chunk(args):
                f"{json.dumps(subj)}.replace(re, 'x').length >= 0, {json.dumps(subj)}.split(re).length >= 0, {json.dumps(subj)}.search(re) >= -1] }} "
                "catch (e) { r = ['err', e.name, e instanceof SyntaxError || e instanceof RangeError] } r")
         cnt += 1
-        signal.alarm(20)
+        signal.setitimer(signal.ITIMER_PROF, 20)
         try:
             got = Context(time_limit=2.0).eval(src)
             ok = (got[0] == "ok") or (got[0] == "err" and got[2] is True)
@@ -93,7 +93,7 @@ def _soup_chunk(args):
             if type(e).__name__ not in ("TimeLimitError",):
                 bad.append((src, "escaped eval: " + type(e).__name__ + ": " + str(e)[:60]))
         finally:
-            signal.alarm(0)
+            signal.setitimer(signal.ITIMER_PROF, 0)
         if len(bad) > 3:
             break
     return cnt, bad
@@ -109,22 +109,22 @@ def _redos_case(args):
 
     def boom(*a):
         raise TimeoutError("hang")
-    signal.signal(signal.SIGALRM, boom)
+    signal.signal(signal.SIGPROF, boom)      # CPU-time watchdog: the verdict must not depend on the load of the machine
     subj = "a" * n
     src = f"var r; try {{ r = ['ok', new RegExp({json.dumps(pat)}).test({json.dumps(subj)})] }} catch (e) {{ r = ['err', e.name] }} r"
     t0 = time.time()
-    signal.alarm(30)
+    signal.setitimer(signal.ITIMER_PROF, 30)
     try:
         got = Context(time_limit=tl).eval(src)
         res = repr(got)
         ok = True
     except TimeoutError:
-        res, ok = "HANG > 30 s", False
+        res, ok = "HANG > 30 s of CPU time", False
     except Exception as e:  # noqa
         res = type(e).__name__
         ok = type(e).__name__ == "TimeLimitError"
     finally:
-        signal.alarm(0)
+        signal.setitimer(signal.ITIMER_PROF, 0)
     dt = time.time() - t0
     if tl is not None and dt > tl + 4:
         ok, res = False, res + f" after {dt:.1f}s with time_limit={tl}"
